@@ -417,8 +417,24 @@ class ExprMonitor(object):
                                  ptr_widths=(8, 16))
 
     def run(self, n):
+        from miasm.expression.expression import ExprCond, ExprOp, ExprInt, ExprSlice
         for i in range(n):
-            if self.rng.random() < 0.5:
+            if self.rng.random() < 0.01:
+                # directed: a modulo by the constant 0 (no value, empty range) in one branch of a
+                # conditional, used as shift count / sliced; the expression has a value on the other branch
+                g, mode, r = self.large, "large", self.rng
+                w = r.choice([2, 4, 8, 16])
+                dead = ExprOp('%', g.expr(w, 1), ExprInt(0, w))
+                k = r.random()
+                if k < 0.5:
+                    dead = ExprOp(r.choice(['<<', '>>', 'a>>']), g.expr(w, 1), dead)
+                elif k < 0.8:
+                    dead = ExprSlice(ExprOp('%', g.expr(2 * w, 1), ExprInt(0, 2 * w)), 0, w)
+                e = ExprCond(g.expr(r.choice([1, w]), 1), g.expr(w, 2), dead)
+                if r.random() < 0.5:
+                    e = ExprCond(e.cond, e.src2, e.src1)
+                self.rec.count("template:mod_zero_in_one_branch")
+            elif self.rng.random() < 0.5:
                 g, mode = self.small, "small"
                 e = g.expr(self.rng.choice([1, 2, 3, 4, 4]), self.rng.choice([1, 2, 2, 3]))
             else:
@@ -543,7 +559,10 @@ class ExprMonitor(object):
         if not defined:
             rec.count("expr_range_raises_on_undefined_expression")
             return
-        rec.fail("expr_range raises %s: handler %s%s" % (type(exc).__name__, rg.handler_of(node), cls),
+        import traceback
+        frames = traceback.extract_tb(exc.__traceback__)
+        site = frames[-1].name if frames else "?"
+        rec.fail("expr_range raises %s in %s%s" % (type(exc).__name__, site, cls),
                  "expr_range(%s) raised %r at sub-expression %s" % (common.short(e), exc, common.short(node)),
                  dict(expr=repr(e), node=repr(node), exc=repr(exc)))
 
